@@ -210,7 +210,34 @@ func c20Sec() *security.SecurityConfig {
 		RemoteVersion: "$CondorVersion: 25.13.0 2026-06-21 BuildID: test $", SessionCache: security.NewSessionCache()}
 }
 
+// c20Shared: state shared by the brokers of one multi-broker dial, so that the
+// scenario does not depend on the (shuffled) order in which Dial contacts them:
+// whichever broker is asked first fails the request, every later one first lets
+// a rogue present the connect id of the EARLIER request and then the legitimate
+// connection.
+type c20Shared struct {
+	mu  sync.Mutex
+	ids []string
+}
+
+func (sh *c20Shared) next(id string) []string {
+	sh.mu.Lock()
+	defer sh.mu.Unlock()
+	sh.ids = append(sh.ids, id)
+	if len(sh.ids) == 1 {
+		return []string{"reply-fail"}
+	}
+	return []string{"rogue-earlier", "legit", "reply-ok"}
+}
+
+func (sh *c20Shared) earlier() string {
+	sh.mu.Lock()
+	defer sh.mu.Unlock()
+	return sh.ids[0]
+}
+
 type c20Broker struct {
+	shared      *c20Shared
 	addr        string
 	ln          net.Listener
 	cancel      context.CancelFunc
@@ -240,7 +267,11 @@ func startC20Broker(script []string) (*c20Broker, error) {
 		b.reqs++
 		b.opened = append(b.opened, c.Stream.GetConnection())
 		b.mu.Unlock()
-		for i, ev := range b.script {
+		script := b.script
+		if b.shared != nil {
+			script = b.shared.next(id)
+		}
+		for i, ev := range script {
 			switch ev {
 			case "reply-ok":
 				_ = ccb.WriteControlAd(ctx, c.Stream, ccb.NewAd(map[string]any{ccb.AttrResult: true}))
@@ -266,6 +297,8 @@ func startC20Broker(script []string) (*c20Broker, error) {
 					_, _ = rc.Write(c20Hello("dddddddddddddddddddddddddddddddddddddddd"))
 				case "rogue-old":
 					_, _ = rc.Write(c20Hello(c20OldID))
+				case "rogue-earlier":
+					_, _ = rc.Write(append(c20Hello(b.shared.earlier()), refcodec.MkFrame(1, []byte("TOKEN-from-rogue"))...))
 				case "rogue-garbage":
 					_, _ = rc.Write([]byte("\x01\x00\x00\x00\x20this is not a cedar hello at all!"))
 				case "rogue-close":
@@ -396,6 +429,54 @@ func c20DialOne(res *vlib.Result, script []string) string {
 	return outcome
 }
 
+// c20FreshID: n brokers, the first one asked fails, the next one sees a rogue
+// presenting the earlier request's connect id before the legitimate connection.
+func c20FreshID(res *vlib.Result, n int, stagger time.Duration) {
+	res.Evals++
+	res.Nontrivial++
+	sh := &c20Shared{}
+	var brs []*c20Broker
+	var contacts []addresses.CCBContact
+	for i := 0; i < n; i++ {
+		b, err := startC20Broker(nil)
+		if err != nil {
+			res.Violate("C20/harness", "%v", err)
+			return
+		}
+		b.shared = sh
+		defer b.stop()
+		brs = append(brs, b)
+		contacts = append(contacts, addresses.CCBContact{BrokerAddr: b.addr, CCBID: "1", Raw: b.addr + "#1"})
+	}
+	conn, err := ccb.Dial(context.Background(), contacts, ccb.DialOptions{Security: c20Sec(), ListenAddr: "127.0.0.1:0", Stagger: stagger, Timeout: 20 * time.Second})
+	id := fmt.Sprintf("%d brokers, stagger=%v", n, stagger)
+	sh.mu.Lock()
+	ids := append([]string(nil), sh.ids...)
+	sh.mu.Unlock()
+	seen := map[string]bool{}
+	for _, x := range ids {
+		if seen[x] {
+			res.Violate("C20/multi/connect-id-reused-across-requests", "%s: two requests of one dial carried the same connect id - an id is fresh per request", id)
+		}
+		seen[x] = true
+	}
+	if err != nil {
+		if len(ids) >= 2 {
+			res.Violate("C20/multi/no-conn-although-a-broker-works", "%s: %v", id, err)
+		}
+		res.Outcome("fresh-id-dial-failed")
+		return
+	}
+	tok := readToken(conn)
+	if tok == "TOKEN-from-rogue" {
+		res.Violate("C20/multi/returned-rogue/earlier-request-id", "%s: Dial returned the connection that presented the connect id of an EARLIER request of the same dial", id)
+	} else if !strings.HasPrefix(tok, "TOKEN-from-") {
+		res.Violate("C20/multi/returned-conn-not-a-legit-one", "%s: token %q", id, tok)
+	}
+	_ = conn.Close()
+	res.Outcome(fmt.Sprintf("fresh-id-requests=%d", len(ids)))
+}
+
 func c20MultiBroker(res *vlib.Result, working []bool, stagger time.Duration) {
 	res.Evals++
 	res.Nontrivial++
@@ -447,7 +528,7 @@ func c20MultiBroker(res *vlib.Result, working []bool, stagger time.Duration) {
 func C20Plan() *vlib.Plan {
 	p := &vlib.Plan{
 		Property: "C20", Level: "exploration",
-		Rule:   "E-ENUM of arrival orders. (1) accept loop (in-package seam) over a scripted listener: all sequences of length <= L over 11 connection kinds {legit id, wrong id, empty id, id of an earlier request, 39-char prefix of the id, non-hello command, garbage, truncated hello, oversized ad, immediate close, hello without id}; the returned conn must be the first one that presented the id, every earlier one closed, none returned otherwise. (2) proxied request over a scripted broker stream: 11 reply shapes; a conn only after success + matching hello. (3) Dial in standard mode against in-process brokers on loopback TCP: every ordering of {reply-ok, reply-fail} x {legit, 4 rogue kinds} up to 3 events (a rogue's turn ends when it observes its own close), each run twice; 1-3 brokers with every working subset x stagger {-1, 20 ms}: the returned conn delivers the token written on the legit reverse connection. (4) 10^4 generated connect ids are 40 hex characters and pairwise distinct. Non-trivial = at least one connection/reply consumed by the dialer.",
+		Rule:   "E-ENUM of arrival orders. (1) accept loop (in-package seam) over a scripted listener: all sequences of length <= L over 11 connection kinds {legit id, wrong id, empty id, id of an earlier request, 39-char prefix of the id, non-hello command, garbage, truncated hello, oversized ad, immediate close, hello without id}; the returned conn must be the first one that presented the id, every earlier one closed, none returned otherwise. (2) proxied request over a scripted broker stream: 11 reply shapes; a conn only after success + matching hello. (3) Dial in standard mode against in-process brokers on loopback TCP: every ordering of {reply-ok, reply-fail} x {legit, 4 rogue kinds} up to 3 events (a rogue's turn ends when it observes its own close), each run twice; 1-3 brokers with every working subset x stagger {-1, 20 ms}: the returned conn delivers the token written on the legit reverse connection. (4) 10^4 generated connect ids are 40 hex characters and pairwise distinct. Non-trivial = at least one connection/reply consumed by the dialer. (4) connect-id freshness per request: 2 and 3 scripted brokers sharing one scenario (whichever is asked first fails; the next lets a rogue present the EARLIER request's id, then the legitimate connection), sequential and staggered: all requests of one dial carry distinct ids and the rogue is never returned.",
 		Assume: []string{"(3) uses real loopback TCP and goroutines: where a failure reply and the matching hello are both available either documented outcome is accepted", "the 'nothing decisive arrives' scripts rely on the dial's own 300 ms timeout"},
 	}
 	p.Gen = func(tier string, yield func(vlib.Case)) {
@@ -545,6 +626,16 @@ func C20Plan() *vlib.Plan {
 				res.Sample = sc
 				return res
 			}})
+		}
+		for n := 2; n <= 3; n++ {
+			for _, st := range []time.Duration{-1, 20 * time.Millisecond} {
+				n, st := n, st
+				yield(vlib.Case{ID: fmt.Sprintf("multi-fresh-id/brokers=%d/stagger=%v", n, st), Run: func() *vlib.Result {
+					res := &vlib.Result{}
+					c20FreshID(res, n, st)
+					return res
+				}})
+			}
 		}
 		for n := 1; n <= 3; n++ {
 			for mask := 0; mask < 1<<uint(n); mask++ {
